@@ -14,7 +14,12 @@ for d in /verif/seeded/${pat}*/; do
 import json, sys
 m = json.load(open(sys.argv[1]))
 cb = m.get("caught_by") or {}
-print(" ".join(sorted(k for k in cb if k in ("C03", "C04", "C06", "C08", "C09"))))
+claimed = ("C03", "C04", "C06", "C08", "C09")
+# the check recorded as catching it (the first one named under "breaks" if several do)
+good = [k for k in cb if k in claimed and "MISSED" not in cb[k][:40]]
+pref = [k for k in (m.get("breaks") or []) if k in good]
+cand = pref or good or [k for k in cb if k in claimed]
+print(cand[0] if cand else "")
 EOF
 )
   rm -rf $work/src; cp -r /repo/src $work/src
